@@ -168,10 +168,10 @@ package dawn
 //@   callsite evaluate: assert after-evaluating: phase == 1 && !proj.dryrun
 //@   callsite upToDate: assert own-check-after-dependencies: n_depeval == old(n_depeval) + 1
 //@   modifies heap, n_depeval, phase, was_eval, n_body, body_ok, body_data, n_save, saved_rerun, saved_data, saved_deps
-//@   loop 0: invariant phase == 0 && !was_eval && n_body == old(n_body) && n_save == old(n_save)
-//@   loop 0: invariant depData != nil && proj != nil
-//@   loop 0: step dep-blamed: when !depsUpToDate && old(depsUpToDate) ensures !ok || dep.Target.(*dawn.runTarget).changed || newData != prevData
-//@   loop 0: step dep-checked: when depsUpToDate ensures old(depsUpToDate) && ok && !dep.Target.(*dawn.runTarget).changed && newData == prevData && depData[label] == newData && dep.Error == nil
+//@   loop over engine.EvaluateTargets(): invariant phase == 0 && !was_eval && n_body == old(n_body) && n_save == old(n_save)
+//@   loop over engine.EvaluateTargets(): invariant depData != nil && proj != nil
+//@   loop over engine.EvaluateTargets(): step dep-blamed: when !depsUpToDate && old(depsUpToDate) ensures !ok || dep.Target.(*dawn.runTarget).changed || newData != prevData
+//@   loop over engine.EvaluateTargets(): step dep-checked: when depsUpToDate ensures old(depsUpToDate) && ok && !dep.Target.(*dawn.runTarget).changed && newData == prevData && depData[label] == newData && dep.Error == nil
 
 // Bodies report `changed` whenever they succeed: this is what the dry run assumes (C13).
 //@ func (*dawn.sourceFile).evaluate
@@ -320,8 +320,8 @@ package dawn
 //@   callsite WalkDir: assert sweeps-build-state: $0 == proj.work
 //@   callsite WalkDir: assert all-live-records-marked: forall k: string :: has(proj.targets, k) ==> has(paths, tipath(proj, tlabel(proj.targets[k].target)))
 //@   modifies heap
-//@   loop 0: invariant paths != nil && proj != nil
-//@   loop 0: invariant visited-marked: forall k: string :: seen(k) ==> has(paths, tipath(proj, tlabel(proj.targets[k].target)))
+//@   loop over proj.targets: invariant paths != nil && proj != nil
+//@   loop over proj.targets: invariant visited-marked: forall k: string :: seen(k) ==> has(paths, tipath(proj, tlabel(proj.targets[k].target)))
 
 // C14, inductive step of "no ancestor of a marked path is swept": if the marked set is closed under
 // parent up to the root (GC$1#post:parent-closed) then the parent of a marked path below the root is
@@ -470,8 +470,8 @@ package dawn
 //@   ensures result != nil
 //@   ensures others-untouched: forall d: ref :: old(allocated(d)) ==> (dkeys[d] == old(dkeys)[d] && dvals[d] == old(dvals)[d])
 //@   modifies dkeys, dvals
-//@   loop 0: invariant dict != nil && !old(allocated(dict))
-//@   loop 0: invariant others-untouched: forall d: ref :: old(allocated(d)) ==> (dkeys[d] == old(dkeys)[d] && dvals[d] == old(dvals)[d])
+//@   loop over pairs: invariant dict != nil && !old(allocated(dict))
+//@   loop over pairs: invariant others-untouched: forall d: ref :: old(allocated(d)) ==> (dkeys[d] == old(dkeys)[d] && dvals[d] == old(dvals)[d])
 
 // ---------------------------------------------------------------- C03: records are replaced atomically
 // saveTargetInfo writes a record only as: create a temporary file in the build-state temp directory,
@@ -503,8 +503,9 @@ package dawn
 //@ func dawn.dirSum
 //@   uses fmt.Fprintf variant hashing
 //@   requires dir != nil
+//@   ensures  never-reports-the-directory-missing: result.1 != nil ==> !isnotexist(result.1)
 //@   modifies heap, n_hashed
-//@   loop 0: step every-entry-contributes: when true ensures n_hashed == old(n_hashed) + 1
+//@   loop over entries: step every-entry-contributes: when true ensures n_hashed == old(n_hashed) + 1
 
 // A source is up to date exactly when its recorded checksum equals the checksum of its present
 // contents (a missing file has the empty checksum); any other I/O error is returned.
@@ -533,8 +534,8 @@ package dawn
 //@   ensures  outputs-present: (result.3 == nil && result.0 && !f.always) ==> (forall i: int :: 0 <= i && i < len(f.gens) ==> statted[f.gens[i]])
 //@   ensures  out-of-date-for-a-cause: (result.3 == nil && !result.0 && !old(missing_seen)) ==> (missing_seen || !steq(f.oldEnv, f.newEnv) || f.oldEnv == ifaceas("starlark.NoneType", 0))
 //@   modifies heap, olen, obytes, ipos, dkeys, dvals, it_seen, statted, missing_seen
-//@   loop 0: invariant f != nil && !f.always
-//@   loop 0: invariant checked-so-far: forall i: int :: 0 <= i && i <= rangeindex ==> statted[f.gens[i]]
+//@   loop over f.gens: invariant f != nil && !f.always
+//@   loop over f.gens: invariant checked-so-far: forall i: int :: 0 <= i && i <= rangeindex ==> statted[f.gens[i]]
 
 // ---------------------------------------------------------------- C03: the index is never required
 // A load that was not asked to prefer the index never reads it; a load that prefers it and cannot
